@@ -961,18 +961,24 @@ func TestConcurrent(t *testing.T) {
 			all := received(sr.consumer)
 			// for remote consumers deliveries of the interval may arrive after the unsubscribe
 			// returned; take everything up to the next subscribe of this consumer
+			// (the next subscription is the next one in time; it can begin at the same index when
+			// nothing at all was delivered during this one)
 			end := len(all)
+			var next *subRec
 			for _, o := range subs {
-				if o.consumer == sr.consumer && o.firstIdx > sr.firstIdx && o.firstIdx < end {
-					end = o.firstIdx
+				if o.consumer == sr.consumer && o.callStart > sr.callStart && (next == nil || o.callStart < next.callStart) {
+					next = o
 				}
+			}
+			if next != nil {
+				end = next.firstIdx
 			}
 			live := all[sr.firstIdx:end]
 			// deliveries of the previous subscription of this consumer may still be in its
 			// mailbox when the next subscribe call begins
 			var prevEnd int64
 			for _, o := range subs {
-				if o.consumer == sr.consumer && o.firstIdx < sr.firstIdx && o.unsubEnd > prevEnd {
+				if o.consumer == sr.consumer && o.callStart < sr.callStart && o.unsubEnd > prevEnd {
 					prevEnd = o.unsubEnd
 				}
 			}
